@@ -58,12 +58,12 @@ ASSUMPTIONS = [
     "an algorithm instance kept across a registration is within the quantifier (separate mechanism keys *held-instance*)",
 ]
 BUDGET = {"quick": 75, "thorough": 420}
-NCASES = {"quick": 1060, "thorough": 6400}
+NCASES = {"quick": 260, "thorough": 5200}
 WORKERS = {"quick": 16, "thorough": 16}
 EVAL_COUNTER = "u_steps_compared"
 FLOORS = {
-    "quick": {"histories": 600, "u_steps_compared": 8000, "u_new_compared": 4000, "u_new_dispatched": 2500, "ref_new_ok": 1500, "random_histories": 100},
-    "thorough": {"histories": 3000, "u_steps_compared": 40000, "u_new_compared": 20000, "u_new_dispatched": 12000, "ref_new_ok": 8000, "random_histories": 1500},
+    "quick": {"histories": 150, "enumerated_histories": 98, "u_steps_compared": 10000, "u_new_compared": 6000, "u_new_dispatched": 4000, "ref_new_ok": 3000, "random_histories": 50},
+    "thorough": {"histories": 1500, "enumerated_histories": 900, "u_steps_compared": 30000, "u_new_compared": 15000, "u_new_dispatched": 10000, "ref_new_ok": 7000, "random_histories": 500},
 }
 EXHAUSTIVE = False
 
@@ -172,23 +172,23 @@ def show(steps):
     return " ".join(out)
 
 
-def pattern_history(alg, kind, pattern, ctxs, is_class):
-    c0 = ctxs[0]
-    if pattern == "use" or not is_class:
-        return [U(alg, "old", c) for c in ctxs] + [R(kind)] + [U(alg, kind, c) for c in ctxs] + [U(alg, "old", c0)]
+def pattern_history(algs, kind, pattern, cat):
+    """History of one pattern for a group of algorithm entries (a single entry in the isolated enumeration)."""
+    ents = cat["entries"]
+    classes = [a for a in algs if ents[a]["is_class"]]
+    old = [U(a, "old", c) for a in algs for c in ents[a]["ctxs"]]
+    new = [U(a, kind, c) for a in algs for c in ents[a]["ctxs"]]
+    new_held = [U(a, kind, c, "held") for a in classes for c in ents[a]["ctxs"]]
+    again = [U(a, "old", ents[a]["ctxs"][0]) for a in algs]
+    again_held = [U(a, "old", ents[a]["ctxs"][0], "held") for a in classes]
+    if pattern == "use":
+        return old + [R(kind)] + new + again
     if pattern == "inst":
-        return [I(alg)] + [R(kind)] + [U(alg, kind, c) for c in ctxs] + [U(alg, "old", c0)]
+        return [I(a) for a in classes] + [R(kind)] + new + again
     if pattern == "held":
-        return [I(alg, True)] + [R(kind)] + [U(alg, kind, c, "held") for c in ctxs] + [U(alg, "old", c0, "held")]
+        return [I(a, True) for a in classes] + [R(kind)] + new_held + again_held
     if pattern == "all":
-        return (
-            [I(alg, True)]
-            + [U(alg, "old", c) for c in ctxs]
-            + [R(kind)]
-            + [U(alg, kind, c) for c in ctxs]
-            + [U(alg, kind, c, "held") for c in ctxs]
-            + [U(alg, "old", c0), U(alg, "old", c0, "held")]
-        )
+        return [I(a, True) for a in classes] + old + [R(kind)] + new + new_held + again + again_held
     raise ValueError(pattern)
 
 
@@ -390,29 +390,44 @@ def setup(ctx):
         raise RuntimeError("driver and check disagree about the late-type kinds")
 
 
-def enumeration(cat, tier):
-    items = []
-    for a in sorted(cat["entries"]):
-        e = cat["entries"][a]
-        for k in KINDS:
-            if tier == "quick":
-                items.append((a, k, "all" if e["is_class"] else "use"))
-            else:
-                for p in PATTERNS if e["is_class"] else ["use"]:
-                    items.append((a, k, p))
-    return items
+GROUP = 7
+
+
+def enumeration(cat, tier, seed):
+    """Work items: ("batch", [entries], kind, "all") for groups of entries (grouping shuffled by the seed), and in
+    the thorough tier additionally every (entry, kind, pattern) on its own."""
+    import random
+
+    names = sorted(cat["entries"])
+    sh = list(names)
+    random.Random(f"C20/groups/{seed}").shuffle(sh)
+    groups = [sorted(sh[j : j + GROUP]) for j in range(0, len(sh), GROUP)]
+    items = [("batch", g, k, "all") for k in KINDS for g in groups]
+    iso = []
+    if tier != "quick":
+        for a in names:
+            for k in KINDS:
+                for p in PATTERNS if cat["entries"][a]["is_class"] else ["use"]:
+                    iso.append(("iso", [a], k, p))
+    return items, iso
 
 
 def case(ctx, i, rng):
     cat = catalogue()
-    items = enumeration(cat, ctx.tier)
+    items, iso = enumeration(cat, ctx.tier, ctx.seed)
+    item = None
     if i < len(items):
-        a, k, p = items[i]
-        e = cat["entries"][a]
+        item = items[i]
+    else:
+        j = i - len(items)
+        if j % 2 == 0 and j // 2 < len(iso):
+            item = iso[j // 2]
+    if item is not None:
+        tag, algs, k, p = item
         ctx.count("enumerated_histories")
-        ctx.count("pattern_" + p)
-        steps = pattern_history(a, k, p, e["ctxs"], e["is_class"])
-        judge(ctx, steps, f"enum:{a}:{k}:{p}")
+        ctx.count(f"{tag}_pattern_{p}")
+        steps = pattern_history(algs, k, p, cat)
+        judge(ctx, steps, f"enum:{tag}:{k}:{p}")
     else:
         steps = random_history(rng, cat)
         ctx.count("random_histories")
@@ -422,9 +437,9 @@ def case(ctx, i, rng):
 def finish(ctx):
     cat = catalogue()
     if ctx.sub == 0:
-        n = len(enumeration(cat, ctx.tier))
-        ctx.count("enumeration_size", n)
+        items, iso = enumeration(cat, ctx.tier, ctx.seed)
+        ctx.count("enumeration_size", len(items) + len(iso))
         ctx.count("catalogue_classes", sum(1 for e in cat["entries"].values() if e["is_class"]))
         ctx.count("catalogue_functions", sum(1 for e in cat["entries"].values() if not e["is_class"]))
-        if n > NCASES[ctx.tier]:
+        if len(items) + 2 * len(iso) + 50 > NCASES[ctx.tier]:
             raise RuntimeError("NCASES is smaller than the enumeration; raise it")
